@@ -219,7 +219,7 @@ class Keyer:
 FRAME_RE = re.compile(r"#\d+ 0x[0-9a-f]+ in (\S+) (\S+)")
 
 
-def asan_key(report):
+def asan_key(report, src_root=None):
     """kind + the innermost two distinct in-repo functions of the FIRST stack of the report"""
     m = re.search(r"(?:AddressSanitizer|UndefinedBehaviorSanitizer): ([A-Za-z0-9_-]+)", report)
     kind = m.group(1) if m else "report"
@@ -231,11 +231,42 @@ def asan_key(report):
     frames = []
     for fm in FRAME_RE.finditer(first):
         fn, loc = fm.group(1), fm.group(2)
-        if ("/src/" in loc or loc.startswith("src/")) and (not frames or frames[-1] != fn):
+        if ("/src/" in loc or loc.startswith("src/")) and (not frames or frames[-1].split("@")[0] != fn):
+            if fn == "vm_core_execute":
+                fn += _opcode_at(loc, src_root)
             frames.append(fn)
         if len(frames) >= 2:
             break
     return "asan|%s|%s" % (kind, "<".join(frames) or "?")
+
+
+_VM_CASES = {}
+
+
+def _opcode_at(loc, src_root):
+    """'@OP_X' for a src/nanovm/vm.c:LINE location inside the dispatch switch (the handler the line belongs to)"""
+    m = re.search(r"nanovm/vm\.c:(\d+)", loc)
+    if not m or not src_root:
+        return ""
+    if src_root not in _VM_CASES:
+        cases = []
+        try:
+            with open(os.path.join(src_root, "src", "nanovm", "vm.c")) as f:
+                for i, line in enumerate(f, 1):
+                    cm = re.match(r"\s*case (OP_[A-Z0-9_]+):", line)
+                    if cm:
+                        cases.append((i, cm.group(1)))
+        except OSError:
+            pass
+        _VM_CASES[src_root] = cases
+    line = int(m.group(1))
+    name = ""
+    for i, nm in _VM_CASES[src_root]:
+        if i <= line:
+            name = nm
+        else:
+            break
+    return "@" + name if name else ""
 
 
 # ------------------------------------------------------------------------------------------------
@@ -245,6 +276,10 @@ def asan_key(report):
 CHURN_DECLS = """struct P { name: string, xs: array<int> }
 struct Q { p1: P, p2: P, label: string }
 union U { Str { us: string }, Arr { uxs: array<int> }, Non { uz: int } }
+union Result<T, E> {
+    Ok { value: T },
+    Err { error: E }
+}
 fn inc(x: int) -> int { return (+ x 1) }
 fn big(x: int) -> bool { return (> x 1) }
 fn add(a: int, b: int) -> int { return (+ a b) }
@@ -257,6 +292,14 @@ fn mkm(i: int) -> HashMap<string, int> {
     (map_set m (int_to_string i) 1)
     (map_set m (int_to_string i) 2)
     return m
+}
+fn mkms(i: int) -> HashMap<string, string> {
+    let m: HashMap<string, string> = (map_new)
+    (map_set m (int_to_string i) (+ "value-" (int_to_string i)))
+    return m
+}
+fn mkr(i: int) -> Result<string, string> {
+    if (== (% i 2) 0) { return Result.Ok { value: (+ "ok-" (int_to_string i)) } } else { return Result.Err { error: (+ "err-" (int_to_string i)) } }
 }
 fn bump(m: HashMap<string, int>, k: string) -> int {
     if (map_has m k) { (map_set m k (+ (map_get m k) 1)) } else { (map_set m k 1) }
@@ -378,6 +421,8 @@ CHURN = {
     "temp_struct_field": ("", 'let s: string = (mkp i).name\nlet x: array<int> = (mkp i).xs\nset acc (+ acc (+ (str_length s) (array_length x)))', ""),
     "temp_nested_field": ("", 'let s: string = (mkq i).p2.name\nlet t: string = (mkq i).label\nset acc (+ acc (+ (str_length s) (str_length t)))', ""),
     "temp_literal_projection": ("", 'let s: string = (at [(+ "e" (int_to_string i)), "z"] 0)\nlet t: string = (i, (+ "t" (int_to_string i))).1\nlet u: string = P { name: (+ "n" (int_to_string i)), xs: [i] }.name\nset acc (+ acc (+ (str_length s) (+ (str_length t) (str_length u))))', ""),
+    "temp_result_unwrap": ("", 'let s: string = (result_unwrap (mkr (* 2 i)))\nlet e: string = (result_unwrap_err (mkr (+ 1 (* 2 i))))\nset acc (+ acc (+ (str_length s) (str_length e)))', ""),
+    "temp_string_map_get": ("", 'let s: string = (map_get (mkms i) (int_to_string i))\nset acc (+ acc (str_length s))', ""),
     "keys_of_temporary_map": ("", 'let ks: array<string> = (map_keys (mkm i))\nset acc (+ acc (+ (array_length ks) (map_get (mkm i) (int_to_string i))))', ""),
     "hashmap_keys_values": ('let m: HashMap<string, int> = (map_new)\n(map_set m "a" 1)\n(map_set m "b" 2)', 'let ks: array<string> = (map_keys m)\nlet vs: array<int> = (map_values m)\nset acc (+ acc (+ (array_length ks) (array_length vs)))', ""),
 }
@@ -407,6 +452,7 @@ def am_decls():
     out = ["struct P { name: string, xs: array<int>, tags: array<string> }",
            "struct Q { p1: P, p2: P, label: string }",
            "union U { Str { us: string }, Arr { uxs: array<int> }, Rec { rp: P }, Non { uz: int } }",
+           "union Result<T, E> {\n    Ok { value: T },\n    Err { error: E }\n}",
            'let mut g_s: string = "g"', "let mut g_ai: array<int> = []", "let mut g_as: array<string> = []",
            'let mut g_p: P = P { name: "gp", xs: [], tags: [] }', "let mut g_aa: array<array<int>> = []", ""]
     for t in ID_TYPES:
@@ -497,6 +543,18 @@ fn fresh_m(i: int) -> HashMap<string, int> {
     (map_set m (fresh_s i) i)
     (map_set m (fresh_s i) (+ i 1))
     return m
+}
+fn fresh_ms(i: int) -> HashMap<string, string> {
+    let m: HashMap<string, string> = (map_new)
+    (map_set m (fresh_s i) (fresh_s (+ i 1)))
+    (map_set m (fresh_s i) (fresh_s (+ i 2)))
+    return m
+}
+fn fresh_r(i: int) -> Result<string, string> {
+    if (== (% i 2) 0) { return Result.Ok { value: (fresh_s i) } } else { return Result.Err { error: (fresh_s i) } }
+}
+fn fresh_ra(i: int) -> Result<array<string>, string> {
+    return Result.Ok { value: (fresh_as i) }
 }
 fn fresh_u(i: int) -> U {
     if (== (% i 3) 0) { return U.Str { us: (fresh_s i) } } else {
@@ -655,6 +713,9 @@ class AliasMachine:
                   lambda: "(%d, (fresh_s %s)).1" % (r.randint(0, 9), self.uniq()),
                   lambda: "((fresh_s %s), %s).0" % (self.uniq(), self.e("AI", 0)),
                   lambda: "(temp_u_s %s)" % self.uniq(),
+                  lambda: "(result_unwrap (fresh_r (* 2 %s)))" % self.uniq(),
+                  lambda: "(result_unwrap_err (fresh_r (+ 1 (* 2 %s))))" % self.uniq(),
+                  lambda: "(map_get (fresh_ms %d) (fresh_s %d))" % ((self.n + 1) * 37, (self.uniq(), self.n * 37)[1]),
                   lambda: "(get_AS (fresh_as %s) %d %s)" % (self.uniq(), r.randrange(3), self.e("S", 0)),
                   lambda: "(get_AP (fresh_ap %s) %d %s).name" % (self.uniq(), r.randrange(2), self.e("P", 0)),
                   lambda: "(u_s (fresh_u %s) %s)" % (self.uniq(), self.e("S", 0))],
@@ -664,7 +725,8 @@ class AliasMachine:
                    lambda: "(u_xs (fresh_u %s) %s)" % (self.uniq(), self.e("AI", 0))],
             "AS": [lambda: "(fresh_p %s).tags" % self.uniq(), lambda: "(fresh_q %s).%s.tags" % (self.uniq(), r.choice(["p1", "p2"])),
                    lambda: "(array_slice (fresh_as %s) %d 3)" % (self.uniq(), r.randrange(2)),
-                   lambda: "(map_keys (fresh_m %s))" % self.uniq()],
+                   lambda: "(map_keys (fresh_m %s))" % self.uniq(), lambda: "(map_values (fresh_ms %s))" % self.uniq(),
+                   lambda: "(result_unwrap (fresh_ra %s))" % self.uniq()],
             "P": [lambda: "(fresh_q %s).%s" % (self.uniq(), r.choice(["p1", "p2"])),
                   lambda: "Q { p1: (fresh_p %s), p2: %s, label: %s }.p1" % (self.uniq(), self.e("P", 0), self.e("S", 0)),
                   lambda: "(u_p (fresh_u %s) %s)" % (self.uniq(), self.e("P", 0)),
@@ -927,6 +989,10 @@ T_DECLS = """struct P { name: string, xs: array<int>, tags: array<string> }
 struct In { s: string, n: int }
 struct Out { a: In, b: In, xs: array<string> }
 union Sh { Circle { cname: string, r: int }, Box { btags: array<string> }, Holder { hp: P }, Nil { z: int } }
+union Result<T, E> {
+    Ok { value: T },
+    Err { error: E }
+}
 let mut G_S: string = "g0"
 let mut G_A: array<int> = [1, 2, 3]
 let mut G_AS: array<string> = []
@@ -1387,6 +1453,14 @@ fn shname(i: int) -> string {
     }
     return o
 }
+fn lookup(i: int) -> Result<string, string> {
+    if (== (%% i 2) 0) { return Result.Ok { value: (mk_name i) } } else { return Result.Err { error: (+ "no-" (int_to_string i)) } }
+}
+fn mkms(i: int) -> HashMap<string, string> {
+    let m: HashMap<string, string> = (map_new)
+    (map_set m (mk_name i) (mk_name (+ i 1)))
+    return m
+}
 fn same(a: string, b: string, want_a: string, want_b: string) -> int {
     let mut bad: int = 0
     if (!= a want_a) { set bad (+ bad 1) } else {}
@@ -1419,6 +1493,12 @@ fn main() -> int {
     (println (shname 0))
     (println (shname 1))
     (println (shname 2))
+    let w: string = (result_unwrap (lookup 4))
+    (println w)
+    let e: string = (result_unwrap_err (lookup 5))
+    (println (+ e "!"))
+    let mv: string = (map_get (mkms 8) (mk_name 8))
+    (println (+ mv "."))
     let lit: string = Person { pname: (mk_name 11), age: 1, inner: (mk_in 2), nums: [] }.pname
     (println lit)
     let lit2: string = (at [(mk_name 21), (mk_name 22)] 1)
@@ -1518,12 +1598,12 @@ def judge(ctx, keyer, tally, family, label, files, o):
             continue
         if "/nanovm/" in rep or "src/nanovm" in rep:
             rfiles["sanitizer.txt"] = rep
-            ctx.violation(asan_key(rep), "%s: sanitizer report inside the VM in the %s run of %s\n%s" % (family, which, label, rep[:1500]), rfiles)
+            ctx.violation(asan_key(rep, keyer.asan.root), "%s: sanitizer report inside the VM in the %s run of %s\n%s" % (family, which, label, rep[:1500]), rfiles)
             reported = True
         else:
             tally.out("sanitizer-report-outside-vm")
             if len(tally.frontend_reports) < 5:
-                tally.frontend_reports.append({"program": label, "key": asan_key(rep)})
+                tally.frontend_reports.append({"program": label, "key": asan_key(rep, keyer.asan.root)})
         break
     for key, txt in keyer.keys(o):
         n = sum(1 for k, f in o.records if k != "summary")
